@@ -253,7 +253,7 @@ func pinnedC01() []*pgen.Case {
 		pinnedHelperNameClash("pin_helper_clash_struct", "// goverter:output:file ./p.gen.go\n", false),
 		pinnedHelperNameClash("pin_helper_clash_vars", "", true),
 		pinnedSameName("pin_same_impl_name", false), pinnedSameName("pin_same_func_name", true),
-		pinnedFuncTypes("pin_func_types"), pinnedBlankFields("pin_blank_fields"), pinnedSameNameTwoFiles("pin_same_name_two_files")}
+		pinnedFuncTypes("pin_func_types"), pinnedChanTypes("pin_chan_types"), pinnedBlankFields("pin_blank_fields"), pinnedSameNameTwoFiles("pin_same_name_two_files")}
 }
 
 // pinnedSameNameTwoFiles: the same identifier declared by two converters that write DIFFERENT files of one package.
@@ -272,6 +272,15 @@ func pinnedBlankFields(name string) *pgen.Case {
 	src := "package p\n\ntype In struct{ _ int; V int; _ string; N struct{ _ bool; X int } }\ntype Out struct{ _ int; V int; _ string; N struct{ _ bool; X int } }\n\n// goverter:variables\nvar (\n\tConvert func(source In) Out\n\tConvertList func(source []In) []Out\n)\n"
 	c := pgen.RawCase(name, map[string]string{"p/input.go": src}, nil, []string{"./p"})
 	c.Feature("tag", "blank-fields")
+	return c
+}
+
+// pinnedChanTypes: channel types that goverter has to spell out (directions, a channel of receive-only channels needs
+// parentheses, channels inside func and map types).
+func pinnedChanTypes(name string) *pgen.Case {
+	src := "package p\n\ntype In struct {\n\tA []<-chan int\n\tB []chan<- string\n\tC []chan (<-chan int)\n\tD []chan<- chan int\n\tE []<-chan <-chan bool\n\tF map[string]func(<-chan int) chan<- string\n\tG [](<-chan []chan int)\n}\ntype Out struct {\n\tA []*<-chan int\n\tB []*chan<- string\n\tC []*chan (<-chan int)\n\tD []*chan<- chan int\n\tE []*<-chan <-chan bool\n\tF map[string]*func(<-chan int) chan<- string\n\tG []*<-chan []chan int\n}\n\n// goverter:converter\n// goverter:skipCopySameType\ntype Converter interface {\n\tConvert(source In) Out\n\tList(source []chan (<-chan int)) []*chan (<-chan int)\n}\n"
+	c := pgen.RawCase(name, map[string]string{"p/input.go": src}, nil, []string{"./p"})
+	c.Feature("tag", "chan-types")
 	return c
 }
 
